@@ -271,6 +271,31 @@ class TsDT(_dt.datetime):
         return TsDT(self.ts, self._tz, self._fold, self.year_hint)
 
 
+_INSTALLED = False
+
+
+def install():
+    """CrossHair's datetime model compares field tuples; against a TsDT it must defer to the shim's
+    timestamp comparison (return NotImplemented so Python tries the reflected operation)."""
+    global _INSTALLED
+    if _INSTALLED:
+        return
+    _INSTALLED = True
+    from crosshair.libimpl import datetimelib as dl
+
+    def wrap(name):
+        orig = getattr(dl.datetime, name)
+
+        def op(self, other):
+            if type(other) is TsDT:
+                return NotImplemented
+            return orig(self, other)
+        op.__name__ = name
+        setattr(dl.datetime, name, op)
+    for nm in ("__eq__", "__ne__", "__lt__", "__le__", "__gt__", "__ge__", "__sub__"):
+        wrap(nm)
+
+
 def to_real(d):
     """TsDT with concrete fields -> real datetime."""
     return (EPOCH + _dt.timedelta(seconds=int(d.ts))).replace(tzinfo=d.tzinfo, fold=int(d.fold))
@@ -279,6 +304,7 @@ def to_real(d):
 def mk(ctx, ts, tzinfo=None, fold=0, year_hint=None):
     """Harness-side constructor: the shim under the tracer, a real datetime natively."""
     if ctx.symbolic:
+        install()
         return TsDT(ts, tzinfo, fold, year_hint)
     return (EPOCH + _dt.timedelta(seconds=ts)).replace(tzinfo=tzinfo, fold=fold)
 
